@@ -37,12 +37,7 @@ func endpointUnder(w *World, r *Run, rule string, o updOutcome) (*epRun, bool) {
 		r.Undecided(rule, fnServeHTTP, "", "anchor not found")
 		return nil, false
 	}
-	if w.fn(fnParseBody) == nil {
-		r.Undecided(rule, fnParseBody, "", "anchor not found")
-		return nil, false
-	}
-	e := w.engine(6, 1)
-	e.opaque[fnParseBody] = true
+	e := w.engine(7, 1) // the body parser is inlined too: what reaches the witness is traced back to the request's Body
 	var trusted, uerr *Term
 	if o.bytes == "nil" {
 		trusted = mk("nil", "", 0, tBytes)
@@ -301,21 +296,22 @@ func ruleStatusTable(w *World, r *Run, a *updAnalysis, rule string) {
 				}
 			}
 			// C10.e: the witness is asked with the request's own values
-			pb := calls(s, fnParseBody)
 			idc := calls(s, cLogID)
 			u := upd[0]
-			good := len(u.Args) == 5 && len(pb) == 1 && len(idc) >= 1 && u.Recv == fieldByType(recv, "feeder.Witness")
+			good, whyArgs := len(u.Args) == 5 && len(idc) >= 1 && u.Recv == fieldByType(recv, "feeder.Witness"), "the witness call has an unexpected shape"
 			if good {
-				good = u.Args[2] == res(pb[0], 0) && u.Args[3] == res(pb[0], 2) && u.Args[4] == res(pb[0], 1)
+				good, whyArgs = requestPartsOK(s, u, mk("field", "Body", 0, nil, paramN(fn, 1)))
 				okID := false
 				for _, ic := range idc {
 					if u.Args[1] == ic.Res {
 						okID = true
 					}
 				}
-				good = good && okID
+				if good && !okID {
+					good, whyArgs = false, "the log ID handed to the witness is not formats/log.ID of the checkpoint's first line"
+				}
 			}
-			r.Check(good, "C10.e", fnServeHTTP+" | Update(ctx, ID(first line), parsed old size, checkpoint, proof) passed through", w.pos(u.Pos), "the endpoint alters the values it hands to the witness: "+short(fmt.Sprint(u.Args)))
+			r.Check(good, "C10.e", fnServeHTTP+" | Update(ctx, ID(first line), parsed old size, checkpoint, proof) passed through", w.pos(u.Pos), whyArgs+": "+short(fmt.Sprint(u.Args)))
 		}
 		if n == 0 {
 			r.Fail(rule, key, w.pos(fn.Pos()), "no path of the endpoint answers this verdict of the witness")
@@ -418,7 +414,6 @@ func ruleServeHTTP(w *World, r *Run, ruleB, ruleC, ruleE string) {
 				continue
 			}
 			al := calls(s, cAllow)
-			pb := calls(s, fnParseBody)
 			upd := calls(s, cFeederUpdate)
 			whs := statusWrites(s)
 			writes := calls(s, cRWWrite)
@@ -460,7 +455,7 @@ func ruleServeHTTP(w *World, r *Run, ruleB, ruleC, ruleE string) {
 			status, _ := statusOf(s)
 			if !allowedNow {
 				n429++
-				clean := len(pb) == 0 && len(upd) == 0
+				clean := len(upd) == 0
 				for _, ev := range s.Events {
 					if ev.Kind != "call" || ev.AtExit {
 						continue
@@ -477,23 +472,23 @@ func ruleServeHTTP(w *World, r *Run, ruleB, ruleC, ruleE string) {
 				r.Check(status == "429" && clean, ruleB, fnServeHTTP+" | over-rate request answered 429 without being processed", w.pos(s.RetPos), "a request over the configured rate is answered "+status+" or is parsed/processed before being pushed back")
 				continue
 			}
-			for _, x := range append(append([]Event(nil), pb...), upd...) {
+			// nothing of the request body is touched before the limiter has admitted the request
+			for _, ev := range s.Events {
+				if ev.Kind != "call" || ev.AtExit || ev.Seq > al[0].Seq {
+					continue
+				}
+				touched := ev.Recv != nil && mentions(ev.Recv, reqBody)
+				for _, x := range ev.Args {
+					if x != nil && mentions(x, reqBody) {
+						touched = true
+					}
+				}
+				r.Check(!touched, ruleB, keyB, w.pos(ev.Pos), short(ev.Callee)+" reads the request body before the rate limiter was consulted")
+			}
+			for _, x := range upd {
 				r.Check(al[0].Seq < x.Seq, ruleB, keyB, w.pos(x.Pos), short(x.Callee)+" runs before the rate limiter was consulted")
 			}
 			// ---- C10.e PRE-CHECKS
-			if len(pb) != 1 || pb[0].Args[0] != reqBody {
-				r.Fail(ruleE, fnServeHTTP+" | body parsed once from the request", w.pos(s.RetPos), "request body is not parsed exactly once from r.Body")
-				continue
-			}
-			if failed(s, pb[0]) {
-				nPre++
-				r.Check(status == "400" && len(upd) == 0, ruleE, fnServeHTTP+" | malformed body answered 400 without reaching the witness", w.pos(s.RetPos), "a body that does not parse is answered "+status+" or still handed to the witness")
-				continue
-			}
-			if !okBefore(s, pb[0], 0) {
-				r.Fail(ruleE, fnServeHTTP+" | parse error checked", w.pos(pb[0].Pos), "parseBody's error is not examined")
-				continue
-			}
 			var lk []Event
 			for _, ev := range eventsOfKind(s, "mapread") {
 				if ev.Recv == logsMap {
@@ -507,7 +502,7 @@ func ruleServeHTTP(w *World, r *Run, ruleB, ruleC, ruleE string) {
 					k, found, _ := boolFact(s, mk("lookup", "ok", 0, nil, lk[0].Recv, lk[0].Args[0]))
 					r.Check(k && !found && status == "404", ruleE, fnServeHTTP+" | unknown origin answered 404", w.pos(s.RetPos), "an origin that is not configured is answered "+status)
 				} else {
-					r.Check(status == "400" && len(lk) == 0, ruleE, fnServeHTTP+" | checkpoint without a first line answered 400", w.pos(s.RetPos), "a checkpoint that cannot be split into origin line and rest is answered "+status)
+					r.Check(status == "400" && len(lk) == 0, ruleE, fnServeHTTP+" | malformed body or checkpoint without a first line answered 400", w.pos(s.RetPos), "a body that does not parse, or a checkpoint that cannot be split into origin line and rest, is answered "+status)
 				}
 				continue
 			}
@@ -521,9 +516,9 @@ func ruleServeHTTP(w *World, r *Run, ruleB, ruleC, ruleE string) {
 			}
 			why := "the log ID looked up and handed to the witness is not ID(first line of the checkpoint)"
 			if good {
-				// the origin line is what precedes the first newline of the checkpoint parseBody returned, and a newline was found
+				// the origin line is what precedes the first newline of the checkpoint handed to the witness, and a newline was found
 				good = false
-				cp := res(pb[0], 2)
+				cp := u.Args[3]
 				for _, sp := range calls(s, "strings.SplitN", "strings.Cut", "bytes.Cut", "strings.Index", "bytes.IndexByte", "strings.IndexByte", "bytes.Index") {
 					if sp.Res != nil && len(sp.Args) >= 2 && mentions(sp.Args[0], cp) && (mentions(idc[0].Args[0], sp.Res) || mentions(idc[0].Args[0], cp)) {
 						sepOK := anySub(sp.Args[1], func(x *Term) bool { return x.Kind == "const" && (x.Name == "\"\\n\"" || x.Name == "10") })
@@ -547,8 +542,7 @@ func ruleServeHTTP(w *World, r *Run, ruleB, ruleC, ruleE string) {
 					}
 				}
 				if good {
-					good = u.Args[2] == res(pb[0], 0) && u.Args[3] == res(pb[0], 2) && u.Args[4] == res(pb[0], 1)
-					why = "parseBody's results are not handed to the witness unmodified"
+					good, why = requestPartsOK(s, u, reqBody)
 				}
 			}
 			r.Check(good, ruleE, fnServeHTTP+" | witness asked with (ID(first line), parsed old size, checkpoint, proof) of a configured log", w.pos(u.Pos), why+": "+short(fmt.Sprint(u.Args)))
@@ -642,6 +636,10 @@ func ruleEndpointHygiene(w *World, r *Run, rule string) {
 	}
 	nInc := 0
 	cleanAlias, cleanLabel := true, true
+	var reqBody *Term
+	if sfn := w.fn(fnServeHTTP); sfn != nil {
+		reqBody = mk("field", "Body", 0, nil, paramN(sfn, 1))
+	}
 	for _, o := range updateOutcomes(a) {
 		ep, ok := endpointUnder(w, r, rule, o)
 		if !ok {
@@ -655,15 +653,12 @@ func ruleEndpointHygiene(w *World, r *Run, rule string) {
 					r.Fail(rule, fnServeHTTP+" | checkpoint bytes returned by the witness are not modified in place", w.pos(ev.Pos), "the endpoint writes into the buffer of the checkpoint the witness returned ("+short(ev.Callee)+" on "+short(fmt.Sprint(ev.Args))+"): with the in-memory store that buffer is the stored checkpoint, so a refused request changes the witness's state")
 				}
 			}
-			pb := calls(s, fnParseBody)
 			for _, inc := range calls(s, cInc) {
 				nInc++
-				for _, pe := range pb {
-					for _, l := range inc.Args {
-						if l != nil && (tainted(l, pe.Res) || tainted(l, res(pe, 0)) || tainted(l, res(pe, 1)) || tainted(l, res(pe, 2))) {
-							cleanLabel = false
-							r.Fail(rule, fnServeHTTP+" | metric labels are constants, configured values or the peer address, never request bytes", w.pos(inc.Pos), "a counter is labelled with a value computed from the request body ("+short(l.String())+"): a label that is not valid UTF-8 makes the Prometheus counter panic before the request is answered, and request-chosen labels are unbounded")
-						}
+				for _, l := range inc.Args {
+					if l != nil && tainted(l, reqBody) {
+						cleanLabel = false
+						r.Fail(rule, fnServeHTTP+" | metric labels are constants, configured values or the peer address, never request bytes", w.pos(inc.Pos), "a counter is labelled with a value computed from the request body ("+short(l.String())+"): a label that is not valid UTF-8 makes the Prometheus counter panic before the request is answered, and request-chosen labels are unbounded")
 					}
 				}
 			}
@@ -704,4 +699,40 @@ func ruleNoFalseSuccessAtEndpoint(w *World, r *Run, a *updAnalysis, rule string)
 	if n == 0 {
 		r.Undecided(rule, fnServeHTTP, "", "no failing outcome of Update reaches the endpoint analysis")
 	}
+}
+
+
+// requestPartsOK: the (old size, checkpoint, proof) handed to the witness are what was parsed from this request's body:
+// the old size is the result of an integer parse of a line read from it, the checkpoint is the unmodified remainder read
+// from it, every proof element is a base64 decoding of a line read from it; each producing call was found to have
+// succeeded before the witness is asked.
+func requestPartsOK(s Summary, u Event, reqBody *Term) (bool, string) {
+	if len(u.Args) != 5 {
+		return false, "the witness call has an unexpected shape"
+	}
+	producedOK := func(t *Term) bool {
+		for _, ev := range s.Events {
+			if ev.Kind == "call" && ev.Res != nil && ev.Seq < u.Seq && (res(ev, 0) == t || ev.Res == t) {
+				return okBefore(s, ev, u.Seq)
+			}
+		}
+		return false
+	}
+	old, cp, proof := u.Args[2], u.Args[3], u.Args[4]
+	if !(old.Kind == "call" && strings.HasPrefix(old.Name, "strconv.Parse") && mentions(old, reqBody) && producedOK(old)) {
+		return false, "the old size handed to the witness is not the successfully parsed size line of this request (" + short(old.String()) + ")"
+	}
+	if !(cp.Kind == "call" && cp.Name == "io.ReadAll" && mentions(cp, reqBody) && producedOK(cp)) {
+		return false, "the checkpoint handed to the witness is not the unmodified remainder of this request's body (" + short(cp.String()) + ")"
+	}
+	els, ok := sliceElems(s, proof)
+	if !ok && !(proof.Kind == "alloc" || proof.Kind == "nil") {
+		return false, "the proof handed to the witness is not a list built from this request's proof lines (" + short(proof.String()) + ")"
+	}
+	for _, el := range els {
+		if !(el.Kind == "call" && strings.HasSuffix(el.Name, ".DecodeString") && mentions(el, reqBody) && producedOK(el)) {
+			return false, "a proof element handed to the witness is not the successful base64 decoding of a line of this request (" + short(el.String()) + ")"
+		}
+	}
+	return true, ""
 }
